@@ -642,6 +642,7 @@ struct Worker {
     link: Arc<Mutex<LinkState>>,
     ctl: Option<Ctl>,
     n: usize,
+    tick: u64,
 }
 
 struct Ran {
@@ -658,10 +659,13 @@ fn devices(n: usize) -> Vec<Device> {
     (0..n).map(|_| AUTD3 { pos: Point3::origin(), ..Default::default() }.into()).collect()
 }
 
-fn option(t: T, par: u8) -> SenderOption<NoSleep> {
+/// `zero_iv`: every other case runs with zero send/receive intervals (legal back-to-back polling). With the
+/// no-op sleeper the intervals only feed `sleep_until`, so the answers (and the model) do not depend on them.
+fn option(t: T, par: u8, zero_iv: bool) -> SenderOption<NoSleep> {
+    let iv = if zero_iv { Duration::ZERO } else { Duration::from_millis(1) };
     SenderOption {
-        send_interval: Duration::from_millis(1),
-        receive_interval: Duration::from_millis(1),
+        send_interval: iv,
+        receive_interval: iv,
         timeout: t.dur(),
         parallel: match par {
             1 => ParallelMode::On,
@@ -680,6 +684,7 @@ impl Worker {
             link: Arc::new(Mutex::new(LinkState::default())),
             ctl: None,
             n: 0,
+            tick: 0,
         }
     }
 
@@ -709,6 +714,15 @@ impl Worker {
     }
 
     fn run(&mut self, case: &Case) -> Ran {
+        self.tick += 1;
+        let zero_iv = self.tick % 2 == 0;
+        watch(format!("{} [{} controller, send/receive interval {}]", case.text(), if self.is_async { "async" } else { "sync" }, if zero_iv { "0" } else { "1 ms" }));
+        let r = self.run_inner(case, zero_iv);
+        unwatch();
+        r
+    }
+
+    fn run_inner(&mut self, case: &Case, zero_iv: bool) -> Ran {
         match case {
             Case::Open { n, t, open_ok, ff, cs, drop } => {
                 self.dispose();
@@ -732,7 +746,7 @@ impl Worker {
                     drop_entries = l.leftover() - drop_entries;
                 }
                 let link = ScriptLink(self.link.clone());
-                let opt = option(*t, 0);
+                let opt = option(*t, 0, zero_iv);
                 let r = if self.is_async {
                     let r = self.rt.block_on(async { autd3::r#async::Controller::open_with_option(devices(*n), link, opt).await });
                     r.map(Ctl::Async)
@@ -764,7 +778,7 @@ impl Worker {
                     l.load_send(sc);
                 }
                 let d = Frames { per_dev: frames.clone(), timeout: td.dur().unwrap(), gen_fail: false };
-                let opt = option(*t, *par);
+                let opt = option(*t, *par, zero_iv);
                 let r = match self.ctl.as_mut().unwrap() {
                     Ctl::Sync(c) => c.sender(opt).send(d),
                     Ctl::Async(c) => self.rt.block_on(async { c.sender(opt).send(d).await }),
@@ -778,7 +792,7 @@ impl Worker {
             Case::SendX { t, td } => {
                 self.link.lock().unwrap().reset_script(None);
                 let d = Frames { per_dev: vec![1; self.n], timeout: td.dur().unwrap(), gen_fail: true };
-                let opt = option(*t, 0);
+                let opt = option(*t, 0, zero_iv);
                 let r = match self.ctl.as_mut().unwrap() {
                     Ctl::Sync(c) => c.sender(opt).send(d),
                     Ctl::Async(c) => self.rt.block_on(async { c.sender(opt).send(d).await }),
@@ -983,7 +997,7 @@ fn run_stale(w: &mut Worker, ids: &[u8]) -> Ran {
     let cpus = Arc::new(Mutex::new(cpus));
     let acks = Arc::new(Mutex::new(vec![]));
     let link = EmuLink { cpus: cpus.clone(), open: false, acks: acks.clone(), fail_sends: 0 };
-    let opt = option(T::S, 0);
+    let opt = option(T::S, 0, false);
     let mut clear = vec![false; n];
     let mut sync = vec![false; n];
     let mut first = vec![false; n];
@@ -1256,7 +1270,7 @@ fn run_program(is_async: bool, rt: &tokio::runtime::Runtime, n: usize, prog: &[P
         let mut lines = vec![];
         if is_async {
             rt.block_on(async {
-                let mut c = match autd3::r#async::Controller::open_with_option(devices(n), link, option(T::S, 0)).await {
+                let mut c = match autd3::r#async::Controller::open_with_option(devices(n), link, option(T::S, 0, false)).await {
                     Ok(c) => c,
                     Err(e) => {
                         lines.push(format!("open: {e:?}"));
@@ -1265,10 +1279,10 @@ fn run_program(is_async: bool, rt: &tokio::runtime::Runtime, n: usize, prog: &[P
                 };
                 for op in prog {
                     let r = match op {
-                        POp::Send(d) => format!("{:?}", c.sender(option(T::S, 0)).send(build(d)).await),
+                        POp::Send(d) => format!("{:?}", c.sender(option(T::S, 0, false)).send(build(d)).await),
                         POp::Group { modulus, none_rem, dgs, par } => {
                             let (km, dm) = group_args(*modulus, *none_rem, dgs);
-                            format!("{:?}", c.sender(option(T::S, *par)).group_send(km, dm).await)
+                            format!("{:?}", c.sender(option(T::S, *par, false)).group_send(km, dm).await)
                         }
                         POp::FwVer => format!("{:?}", c.firmware_version().await),
                         POp::Fpga => format!("{:?}", c.fpga_state().await),
@@ -1282,7 +1296,7 @@ fn run_program(is_async: bool, rt: &tokio::runtime::Runtime, n: usize, prog: &[P
                 lines.push(format!("close: {:?}", c.close().await));
             });
         } else {
-            let mut c = match Controller::open_with_option(devices(n), link, option(T::S, 0)) {
+            let mut c = match Controller::open_with_option(devices(n), link, option(T::S, 0, false)) {
                 Ok(c) => c,
                 Err(e) => {
                     lines.push(format!("open: {e:?}"));
@@ -1291,10 +1305,10 @@ fn run_program(is_async: bool, rt: &tokio::runtime::Runtime, n: usize, prog: &[P
             };
             for op in prog {
                 let r = match op {
-                    POp::Send(d) => format!("{:?}", c.sender(option(T::S, 0)).send(build(d))),
+                    POp::Send(d) => format!("{:?}", c.sender(option(T::S, 0, false)).send(build(d))),
                     POp::Group { modulus, none_rem, dgs, par } => {
                         let (km, dm) = group_args(*modulus, *none_rem, dgs);
-                        format!("{:?}", c.sender(option(T::S, *par)).group_send(km, dm))
+                        format!("{:?}", c.sender(option(T::S, *par, false)).group_send(km, dm))
                     }
                     POp::FwVer => format!("{:?}", c.firmware_version()),
                     POp::Fpga => format!("{:?}", c.fpga_state()),
@@ -2137,6 +2151,7 @@ fn check_oracle(case: &Case, ran: &Ran) -> Option<(String, String, Vec<String>)>
 
 pub fn run(args: &Args, is_async: bool) {
     let mut out = Out::new(&args.out);
+    start_watchdog(&args.out, 60);
     let thorough = args.tier == "thorough";
     let plan = build_plan(thorough, args.seed);
     let nchunks = plan.chunks.len();
@@ -2293,7 +2308,7 @@ pub fn run(args: &Args, is_async: bool) {
         cpus[0].set_last_msg_id(2);
         let cpus = Arc::new(Mutex::new(cpus));
         let link = EmuLink { cpus: cpus.clone(), open: false, acks: Arc::new(Mutex::new(vec![])), fail_sends: 1 };
-        let r = Controller::open_with_option(devices(1), link, option(T::S, 0));
+        let r = Controller::open_with_option(devices(1), link, option(T::S, 0, false));
         let cleared = !cpus.lock().unwrap()[0].reads_fpga_state();
         out.notes.push(format!(
             "observation (not a violation of the quantified property): link.send fails once during the ignored ForceFan of open and the device was left with message id 2 -> open returned {} and the device {} initialised",
